@@ -292,7 +292,8 @@ func WrapDnsResponseTxt(msg *dns.Msg, data []byte, domain string) error {
 			data = data[0:0]
 		}
 
-		txtData = append(txtData, string(d))
+		// miekg/dns treats TXT strings as presentation format: a literal backslash must be escaped
+		txtData = append(txtData, strings.ReplaceAll(string(d), "\\", "\\\\"))
 
 		// Limit answer to 250 strings
 		if len(txtData) == 250 {
@@ -389,6 +390,30 @@ func WrapDnsResponseNull(msg *dns.Msg, data []byte, domain string) error {
 	return nil
 }
 
+// unescapePresentation undoes the presentation-format escaping (\DDD and \c) which miekg/dns applies to
+// character strings and domain names when it unpacks a message. With dropDots set, unescaped dots (label
+// separators, not part of the data) are removed.
+func unescapePresentation(s string, dropDots bool) []byte {
+	isDigit := func(b byte) bool { return b >= '0' && b <= '9' }
+	res := make([]byte, 0, len(s))
+	for i := 0; i < len(s); i++ {
+		c := s[i]
+		switch {
+		case c == '.' && dropDots:
+			// skip
+		case c == '\\' && i+3 < len(s) && isDigit(s[i+1]) && isDigit(s[i+2]) && isDigit(s[i+3]):
+			res = append(res, (s[i+1]-'0')*100+(s[i+2]-'0')*10+(s[i+3]-'0'))
+			i += 3
+		case c == '\\' && i+1 < len(s):
+			i++
+			res = append(res, s[i])
+		default:
+			res = append(res, c)
+		}
+	}
+	return res
+}
+
 // UnwrapDnsResponse will decode the DNS message and return the bytes in the response
 func UnwrapDnsResponse(q *dns.Msg, domain string) []byte {
 	resp := make([]byte, 0)
@@ -407,22 +432,19 @@ func UnwrapDnsResponse(q *dns.Msg, domain string) []byte {
 			// Remove first two bytes
 			resp = append(resp, []byte(v.Data.String()[2:])...)
 		case *dns.TXT:
-			resp = append(resp, []byte(strings.Join(v.Txt, "")[2:])...)
+			resp = append(resp, unescapePresentation(strings.Join(v.Txt, ""), false)[2:]...)
 		case *dns.MX:
 			data := v.Mx                             // Nothing to remove, Preference takes care of it
 			data = data[0 : len(data)-len(domain)-2] // remove domain
-			data = Undotify(data)                    // Remove dots
-			resp = append(resp, data...)
+			resp = append(resp, unescapePresentation(data, true)...)
 		case *dns.SRV:
 			data := v.Target                         // Nothing to remove, Priority takes care of it
 			data = data[0 : len(data)-len(domain)-2] // remove domain
-			data = Undotify(data)                    // Remove dots
-			resp = append(resp, data...)
+			resp = append(resp, unescapePresentation(data, true)...)
 		case *dns.CNAME:
 			data := v.Target[2:]                     // Remove first two characters
 			data = data[0 : len(data)-len(domain)-2] // remove domain
-			data = Undotify(data)                    // Remove dots
-			resp = append(resp, data...)
+			resp = append(resp, unescapePresentation(data, true)...)
 		case *dns.AAAA:
 			// Remove first two bytes
 			resp = append(resp, v.AAAA[2:]...)
